@@ -64,7 +64,12 @@ EncRec(rec) == [kind |-> JName[rec.k],
 EncContainer(ms, h) ==
   LET c == ms.con[h]
       st == ms.mgr[c.mgr]
-  IN [pfx |-> SeqToSet(st.reg), dflt |-> st.dflt,
+      (* the "prefix" block as written: registered namespaces, then the key "default" for the     *)
+      (* default namespace -- which overwrites a namespace registered under the prefix `default'  *)
+      raw == IF st.dflt = NONE THEN SeqToSet(st.reg)
+             ELSE {e \in SeqToSet(st.reg) : e[1] # "default"} \cup {<<"default", st.dflt>>}
+  IN [pfx |-> {e \in raw : e[1] # "default"},
+      dflt |-> IF \E e \in raw : e[1] = "default" THEN (CHOOSE e \in raw : e[1] = "default")[2] ELSE NONE,
       recs |-> [i \in 1..Len(c.recs) |-> EncRec(c.recs[i])]]
 EncAJ(ms, h) ==
   [top |-> EncContainer(ms, h),
